@@ -107,3 +107,60 @@ def linear_extension(st, S, pos, n):
     c = ForAll([j, r], Implies(And(member(st, S, j), E(st, j, r)), Select(pos, r) < Select(pos, j)),
                patterns=[z3.MultiPattern(member(st, S, j), E(st, j, r))])
     return And(a, b, c)
+
+
+# ---------------------------------------------------------------- scheduler tree (DESIGN 5.1)
+# Rigid ghost functions describing the tree a function is called on.  They are used only by
+# contracts of functions that do not change membership (the `jobs` sets are in their frame).
+owner = z3.Function('owner', Ref, Ref)            # the scheduler a job belongs to (None for a root)
+height = z3.Function('height', Ref, z3.IntSort())  # height of the subtree (well-founded recursion)
+under = z3.Function('under', Ref, Ref, z3.BoolSort())   # x is somewhere below scheduler S
+topm = z3.Function('topm', Ref, Ref, Ref)               # the member of S whose subtree holds x
+
+
+def tree_axioms():
+    """Facts about owner/under/height that hold in every finite forest (L5: lemmas/Tree.lean).
+    `under` is the transitive closure of `owner(x) = S`; the solver gets both unfoldings and the
+    consequences it cannot derive without induction."""
+    x, s, a, b = q(4)
+    ax = []
+    ax.append(ForAll([x], Not(under(x, NONE)), patterns=[under(x, NONE)]))
+    ax.append(ForAll([x, s], Implies(under(x, s), And(s != NONE, isa['PureScheduler'](s), owner(x) != NONE,
+                                                      Or(owner(x) == s, under(owner(x), s)),
+                                                      height(x) < height(s), height(x) >= 0)),
+                     patterns=[under(x, s)]))
+    ax.append(ForAll([x], Implies(owner(x) != NONE, And(under(x, owner(x)), isa['PureScheduler'](owner(x)))),
+                     patterns=[owner(x)]))
+    # transitivity (one step up is enough for the proofs here)
+    ax.append(ForAll([x, s], Implies(And(under(x, s), owner(s) != NONE), under(x, owner(s))),
+                     patterns=[z3.MultiPattern(under(x, s), owner(s))]))
+    ax.append(ForAll([x, a, s], Implies(And(under(x, a), under(a, s)), under(x, s)),
+                     patterns=[z3.MultiPattern(under(x, a), under(a, s))]))
+    # L5: the subtrees of two distinct members of one scheduler are disjoint, and exclude the members
+    ax.append(ForAll([x, a, b], Implies(And(under(x, a), under(x, b), a != b),
+                                        Or(under(a, b), under(b, a))),
+                     patterns=[z3.MultiPattern(under(x, a), under(x, b))]))
+    ax.append(ForAll([x], Not(under(x, x)), patterns=[under(x, x)]))
+    # second unfolding (from the top): x below S is a member of S or lies below a member of S
+    ax.append(ForAll([x, s], Implies(under(x, s), Or(owner(x) == s,
+                                                     And(owner(topm(x, s)) == s, under(x, topm(x, s))))),
+                     patterns=[under(x, s)]))
+    return ax
+
+
+def wf_tree(st, S):
+    """membership in every scheduler of the tree rooted at S is exactly `owner`"""
+    s, j = q(2)
+    return And(
+        is_sched(S),
+        ForAll([j], member(st, S, j) == (owner(j) == S), patterns=[member(st, S, j), owner(j)]),
+        ForAll([s, j], Implies(And(under(s, S), isa['PureScheduler'](s)),
+                               member(st, s, j) == (owner(j) == s)),
+               patterns=[member(st, s, j)]),
+        ForAll([j], Implies(owner(j) == S, And(isa['AbstractJob'](j), st.alive(j))), patterns=[owner(j)]),
+        ForAll([j], Implies(under(j, S), And(isa['AbstractJob'](j), st.alive(j))), patterns=[under(j, S)]),
+    )
+
+
+def in_tree(x, S):
+    return under(x, S)
